@@ -66,16 +66,6 @@ func vc07Ands(n *vc07node) []vc07Gap {
 	return out
 }
 
-func vc07TermName(n *vc07node, generic bool) string {
-	if n.kind == vc07Leaf {
-		if generic {
-			return "term"
-		}
-		return n.name
-	}
-	return vc07opName(n)
-}
-
 // vc07Pair parses the explicit and the juxtaposed text of (n, subset) and says whether the outcomes agree.
 func vc07Pair(n *vc07node, set []int, df bool) (same bool, explicit, juxt string, re, rj vc07res) {
 	decor := make([]uint8, n.nodes)
@@ -146,25 +136,54 @@ func vc07Classify(n *vc07node, a vc07Gap, df bool, budget *int) (cat, input, det
 			}
 		}
 	}
-	generic := false
+	// reduce the operands to plain terms where they do not matter
 	if *budget > 0 {
 		*budget--
-		g := vc07generic(t)
-		for _, ga := range vc07Ands(g) {
-			if ga.idx != ta.idx {
-				continue
+		g := vc07genericLeaves()
+		try := func(p int) {
+			t2 := vc07replaceAt(t, p, g[p%len(g)])
+			for _, ga := range vc07Ands(t2) {
+				if ga.idx != ta.idx {
+					continue
+				}
+				if a2, b2 := vc07GapContext(ga); a2 != after || b2 != before || !ga.eligible {
+					return
+				}
+				if same, e2, j2, re2, rj2 := vc07Pair(t2, []int{ga.idx}, df); !same && re2.ok() == re.ok() && rj2.ok() == rj.ok() {
+					t, ta = t2, ga
+					explicit, juxt, re, rj = e2, j2, re2, rj2
+				}
 			}
-			ga2, gb2 := vc07GapContext(ga)
-			if ga2 != after || gb2 != before {
-				continue
+		}
+		for round := 0; round < 3; round++ {
+			l, r := ta.n.l, ta.n.r
+			pl := ta.idx + 1
+			pr := pl + l.nodes
+			if !vc07isGeneric(r) {
+				try(pr)
 			}
-			if same, e2, j2, re2, rj2 := vc07Pair(g, []int{ga.idx}, df); !same && re2.ok() == re.ok() && rj2.ok() == rj.ok() {
-				generic = true
-				explicit, juxt, re, rj = e2, j2, re2, rj2
+			l, r = ta.n.l, ta.n.r
+			if !vc07isGeneric(l) {
+				try(pl)
+			}
+			l = ta.n.l
+			if l.kind != vc07Leaf { // keep the operator of the left operand, simplify what it applies to
+				if !vc07isGeneric(l.l) {
+					try(pl + 1)
+				}
+				l = ta.n.l
+				if l.r != nil && !vc07isGeneric(l.r) {
+					try(pl + 1 + l.l.nodes)
+				}
+			}
+			r = ta.n.r
+			pr = ta.idx + 1 + ta.n.l.nodes
+			if r.kind != vc07Leaf && !vc07isGeneric(r.l) {
+				try(pr + 1)
 			}
 		}
 	}
-	L, R := vc07TermName(ta.n.l, generic), vc07TermName(ta.n.r, generic)
+	L, R := vc07treeName(ta.n.l), vc07treeName(ta.n.r)
 	switch {
 	case re.ok() && !rj.ok():
 		cat = "juxtaposition-rejected-after-" + L + "-before-" + R
@@ -596,6 +615,8 @@ func vc07opName(n *vc07node) string {
 	}
 	if (n.kind == vc07Boost || n.kind == vc07Fuzzy) && n.arg == "" {
 		s += "-default"
+	} else if (n.kind == vc07Boost || n.kind == vc07Fuzzy) && n.arg != "2" {
+		s += "-fractional"
 	}
 	return s
 }
@@ -884,6 +905,114 @@ func vc07generic(n *vc07node) *vc07node {
 	return rec(n)
 }
 
+func vc07isGeneric(n *vc07node) bool { return n.kind == vc07Leaf && n.name == "eq-generic" }
+
+// vc07replaceAt returns a copy of n in which the subtree at preorder index p is r.
+func vc07replaceAt(n *vc07node, p int, r *vc07node) *vc07node {
+	idx := 0
+	var rec func(x *vc07node) *vc07node
+	rec = func(x *vc07node) *vc07node {
+		i := idx
+		idx++
+		if i == p {
+			idx += x.nodes - 1
+			return r
+		}
+		if x.kind == vc07Leaf {
+			return x
+		}
+		c := *x
+		c.status = nil
+		c.l = rec(x.l)
+		c.depth, c.nodes = c.l.depth+1, c.l.nodes+1
+		if x.r != nil {
+			c.r = rec(x.r)
+			c.nodes += c.r.nodes
+			if c.r.depth+1 > c.depth {
+				c.depth = c.r.depth + 1
+			}
+		}
+		return &c
+	}
+	return rec(n)
+}
+
+// vc07shrink reduces a failing tree to a locally minimal failing one: subtrees are
+// replaced by plain field:value terms or by one of their own operands, boost
+// powers and fuzzy distances are normalised to 2, as long as fails() stays true.
+func vc07shrink(n *vc07node, fails func(*vc07node) bool) *vc07node {
+	g := vc07genericLeaves()
+	for step := 0; step < 300; step++ {
+		type pos struct {
+			idx int
+			x   *vc07node
+		}
+		var list []pos
+		vc07walk(n, func(idx int, x, _ *vc07node, _ int) { list = append(list, pos{idx, x}) })
+		progressed := false
+	search:
+		for _, p := range list {
+			var cands []*vc07node
+			if p.x.kind != vc07Leaf {
+				cands = append(cands, p.x.l)
+				if p.x.r != nil {
+					cands = append(cands, p.x.r)
+				}
+			}
+			if !vc07isGeneric(p.x) {
+				cands = append(cands, g[p.idx%len(g)])
+			}
+			if (p.x.kind == vc07Boost || p.x.kind == vc07Fuzzy) && p.x.arg != "2" {
+				c := *p.x
+				c.arg, c.status = "2", nil
+				cands = append(cands, &c)
+			}
+			for _, c := range cands {
+				if t := vc07replaceAt(n, p.idx, c); fails(t) {
+					n, progressed = t, true
+					break search
+				}
+			}
+		}
+		if !progressed {
+			break
+		}
+	}
+	return n
+}
+
+// vc07treeName renders a (small) tree as a category tag: leaves that were
+// replaceable by a plain term are "term", operators are named, operands follow "of".
+func vc07treeName(n *vc07node) string {
+	switch {
+	case n.kind == vc07Leaf:
+		if vc07isGeneric(n) {
+			return "term"
+		}
+		return n.name
+	case n.r == nil:
+		return vc07opName(n) + "-of-" + vc07treeName(n.l)
+	}
+	return vc07opName(n) + "-of-" + vc07treeName(n.l) + "-and-" + vc07treeName(n.r)
+}
+
+// vc07shape is the two-level operator skeleton with leaf forms (cache key for classifications).
+func vc07shape(n *vc07node) string {
+	one := func(c *vc07node) string {
+		if c == nil {
+			return ""
+		}
+		if c.kind == vc07Leaf {
+			return c.form
+		}
+		return vc07opName(c)
+	}
+	if n.kind == vc07Leaf {
+		return n.name
+	}
+	return vc07opName(n) + "(" + one(n.l) + "," + one(n.r) + ")"
+}
+
 type vc07unop struct {
 	kind int
 	arg  string
@@ -1160,8 +1289,11 @@ func vc07msgLess(a, b vc07msg) bool {
 }
 
 func (c *vc07cat) add(m vc07msg) {
-	for _, o := range c.best {
-		if o == m {
+	for i, o := range c.best {
+		if o.input == m.input { // one message per input
+			if vc07msgLess(m, o) {
+				c.best[i] = m
+			}
 			return
 		}
 	}
@@ -1249,11 +1381,12 @@ func vc07getenv() *vc07env {
 	// collector runs continuously and the 16 workers mostly wait for it
 	e.oldGC = debug.SetGCPercent(-1)
 	e.oldLimit = debug.SetMemoryLimit(3 << 30)
-	// safety net only: the domains are sized to finish well before it
+	// safety net only (go test itself gives up after 10 minutes): the domains are sized
+	// for about 60 CPU-seconds (quick) and 25 CPU-minutes (thorough)
 	if e.thorough {
-		e.deadline = time.Now().Add(225 * time.Second)
+		e.deadline = time.Now().Add(8 * time.Minute)
 	} else {
-		e.deadline = time.Now().Add(18 * time.Second)
+		e.deadline = time.Now().Add(90 * time.Second)
 	}
 	return e
 }
